@@ -627,7 +627,9 @@ impl tower::Service<Req> for Inner {
                 return Poll::Pending;
             }
         }
-        if sh.strict {
+        // (a readiness script may also be installed on a non-strict inner service: `InnerShared::ready_script` pushed by
+        // the adapter just before it polls a handle ready — the plain `inner_call c k` log format is kept)
+        if sh.strict || !sh.ready_script.is_empty() {
             match sh.ready_script.pop_front() {
                 Some('p') => {
                     // pending: the harness polls again by itself (no waker needed; callers re-poll)
